@@ -582,6 +582,16 @@ func (fc *FuncCtx) specCall(x SCall, env *SpecEnv) Term {
 		return fc.specFail("unknown global state component " + name)
 	case "mapsframe":
 		return fc.mapsFrame(env, nil)
+	case "pkgvar":
+		// pkgvar(name): the package-level variable `name` of the verified function's package (as the code reads it)
+		if len(x.Args) == 1 {
+			if id, ok := x.Args[0].(SIdent); ok && fc.Pkg != nil && fc.Pkg.Types != nil {
+				if o, ok := fc.Pkg.Types.Scope().Lookup(id.Name).(*types.Var); ok {
+					return fc.pkgVar(o, env.st)
+				}
+			}
+		}
+		return fc.specFail("pkgvar(NAME): unknown package-level variable")
 	case "mapsframe_except":
 		m := arg(0)
 		return fc.mapsFrame(env, &m)
